@@ -2,14 +2,15 @@
   C20, part M: interleaving model of `cherrypy.process.plugins.BackgroundTask` (run / cancel /
   start) and `Monitor` (start / stop / graceful).  Core Lean only.
 
-  Granularity: ONE model step = ONE traced source line of the real function (the unit at which the
-  replay scheduler `harness/c20_sched.py` pre-empts real threads).  Every line of the anchored
-  functions performs at most one access to the shared variables `Monitor.thread` and
-  `BackgroundTask.running`, so line granularity exhibits the same interleavings of shared accesses
-  as bytecode granularity (CPython switches threads only between bytecodes; attribute loads and
-  stores are single bytecodes).  Program-counter names carry the line offset from the `def` line,
-  e.g. `sp13` = `Monitor.stop` + 13 = `self.thread = None`; the driver prints them and the harness
-  compares them with the labels of the real threads after every step.
+  Granularity: one model step = one source line of the function as it stood when the model was
+  written; every such line performs at most one access to the shared variables `Monitor.thread` and
+  `BackgroundTask.running`, so the model exhibits the same interleavings of shared accesses as
+  bytecode granularity (CPython switches threads only between bytecodes; attribute loads and stores
+  are single bytecodes).  Program-counter names carry the line offset of that time (`sp13` =
+  `self.thread = None`); they are NAMES only: the tie to the real code is trace inclusion modulo
+  stuttering over the observation `obs` below (real threads are driven at shared-state accesses, not
+  at lines; model steps that do not change the observation are stuttering steps), so the line
+  structure of the live source may differ freely.
 
   Two protocols (`Mode`):
   * `asIs`  – the worker arms itself: `run()` starts with `self.running = True`
